@@ -34,7 +34,7 @@ type budget struct {
 // cases are per shard
 var budgets = map[string]budget{
 	"C12": {200, 60, 12000, 1500},
-	"C18": {100, 60, 6000, 1800},
+	"C18": {60, 45, 6000, 1800},
 	"C20": {150, 60, 10000, 1800},
 	"C10": {200, 60, 12000, 1500},
 }
@@ -165,6 +165,7 @@ func main() {
 	_ = os.MkdirAll(repDir, 0o755)
 	seen := map[string]bool{}
 	nviol := 0
+	unreproducible := 0
 	for _, v := range total.Violations {
 		if seen[v.Signature] {
 			continue
@@ -175,7 +176,17 @@ func main() {
 		vb, _ := json.MarshalIndent(v, "", " ")
 		_ = os.WriteFile(path, vb, 0o644)
 		// replay in a fresh process must fail the same way
+		// the minimised case must fail the same way when replayed from its file by fresh
+		// simulated processes; if it does not, it is harness trouble, never a verdict
+		rep, ident, _, rerr := sim.ReplayFile(path, bins)
+		if rerr != nil || !rep {
+			fmt.Fprintf(os.Stderr, "simcheck: violation %s did not reproduce from its replay file %s (err=%v): not reported\n", v.Signature, path, rerr)
+			unreproducible++
+			nviol--
+			continue
+		}
 		fmt.Printf("violation: %s\n  %s\n", v.Signature, v.Detail)
+		fmt.Printf("  replay check: reproduced=%v identical_execution=%v\n", rep, ident)
 		fmt.Printf("VIOLATION property=%s replay=%s\n", id, path)
 	}
 	wall := time.Since(start).Seconds()
@@ -200,6 +211,9 @@ func main() {
 		bins.Cleanup()
 		os.RemoveAll(tmp)
 		os.Exit(1)
+	}
+	if unreproducible > 0 {
+		harness += unreproducible
 	}
 	if harness > 0 || total.FidelityMism > 0 || total.SelfTestMism > 0 || total.Counters["rapid_harness_failure"] > 0 {
 		fmt.Fprintf(os.Stderr, "simcheck: harness trouble: shards_failed=%d fidelity_mismatches=%d selftest_mismatches=%d rapid=%d\n",
